@@ -95,36 +95,45 @@ Definition explicit_lifetime (rp : reply) (recv : Z) : option Z :=
     else Some (rp_expires_hdr rp - (if 0 <=? rp_date rp then rp_date rp else recv))
   else None.
 
-Definition unparsable_expires (rp : reply) : bool :=
-  negb (rp_has_cc rp && (is_some (rp_s_maxage rp) || is_some (rp_max_age rp))) &&
-  rp_has_expires rp && (rp_expires_hdr rp <? 0).
+(* representation invariant of a parsed Cache-Control (HttpHdrCc::parse clears a negative max-age / s-maxage) *)
+Definition cc_values_nonneg (rp : reply) : Prop :=
+  (forall v, rp_s_maxage rp = Some v -> 0 <= v) /\ (forall v, rp_max_age rp = Some v -> 0 <= v).
 
 Lemma served_date_le rp now rt : 0 <= rt -> served_date rp now rt <= now.
-Proof. intros. unfold served_date; cbv zeta. repeat break_if; lia. Qed.
-
-Lemma served_date_recent rp now rt :
-  0 <= rp_date rp -> now - 86400 <= rp_date rp -> 0 <= rt -> served_date rp now rt <= rp_date rp.
 Proof. intros. unfold served_date; cbv zeta. repeat break_if; lia. Qed.
 
 Lemma entry_expires_bound rp recv rt L :
   0 <= recv -> 0 <= rt ->
   explicit_lifetime rp recv = Some L ->
-  (unparsable_expires rp = true -> 0 <= rp_date rp -> recv - 86400 <= rp_date rp) ->
   e_expires (new_entry rp recv rt) <= Z.max recv (recv + L).
 Proof.
-  intros Hr Hrt HL Hbad.
+  intros Hr Hrt HL.
   pose proof (served_date_le rp recv rt Hrt) as Hsd.
   unfold new_entry; cbn [e_expires].
-  unfold explicit_lifetime in HL. unfold unparsable_expires in Hbad.
-  unfold entry_expires, hdr_expiration_time, reply_max_age.
+  unfold explicit_lifetime in HL.
+  unfold entry_expires, hdr_expiration_time, reply_max_age; cbv zeta.
   destruct (rp_has_cc rp); destruct (rp_s_maxage rp); destruct (rp_max_age rp); cbn [andb orb negb is_some] in *;
     try (injection HL as <-);
     repeat break_if; try lia.
   all: try (injection HL as <-; try lia).
-  all: try (assert (served_date rp recv rt <= rp_date rp) by (apply served_date_recent; lia); lia).
   all: try discriminate.
 Qed.
 
+(* a reply with an explicit lifetime never gets a negative stored expiry *)
+Lemma entry_expires_nonneg rp recv rt L :
+  0 <= recv -> cc_values_nonneg rp ->
+  explicit_lifetime rp recv = Some L ->
+  0 <= e_expires (new_entry rp recv rt).
+Proof.
+  intros Hr [Hs Hm] HL.
+  unfold new_entry; cbn [e_expires].
+  unfold explicit_lifetime in HL.
+  unfold entry_expires, hdr_expiration_time, reply_max_age; cbv zeta.
+  destruct (rp_has_cc rp); destruct (rp_s_maxage rp) as [sv|] eqn:Es; destruct (rp_max_age rp) as [mv|] eqn:Em;
+    cbn [andb orb negb is_some] in *;
+    try (pose proof (Hs _ eq_refl)); try (pose proof (Hm _ eq_refl));
+    repeat break_if; try lia; try discriminate.
+Qed.
 
 (* ================= requests and configurations ================= *)
 Definition honours_expiry (cfg : config) : Prop :=
@@ -222,44 +231,18 @@ Proof.
 Qed.
 
 (* ---------- claim 1: the explicit lifetime is respected (per decision) ---------- *)
-Definition recent_date_if_unparsable (rp : reply) (recv : Z) : Prop :=
-  unparsable_expires rp = true -> 0 <= rp_date rp -> recv - 86400 <= rp_date rp.
-
 Lemma explicit_lifetime_respected cfg lmf rp recv rt q now L :
   honours_expiry cfg ->
-  0 <= recv <= now -> 0 <= rt ->
+  0 <= recv <= now -> 0 <= rt -> cc_values_nonneg rp ->
   explicit_lifetime rp recv = Some L ->
-  0 <= e_expires (new_entry rp recv rt) ->
-  recent_date_if_unparsable rp recv ->
   req_no_max_stale q -> 0 <= req_min_fresh q -> now + req_min_fresh q < 2147483648 ->
   recv + L <= now ->
   decide cfg lmf (Some (set_flags (new_entry rp recv rt))) q now <> AHit.
 Proof.
-  intros Hcfg Hr Hrt HL Hrep Hbad Hms Hmf Hrng Hnow.
-  pose proof (entry_expires_bound rp recv rt L ltac:(lia) Hrt HL Hbad) as Hb.
+  intros Hcfg Hr Hrt Hwf HL Hms Hmf Hrng Hnow.
+  pose proof (entry_expires_bound rp recv rt L ltac:(lia) Hrt HL) as Hb.
+  pose proof (entry_expires_nonneg rp recv rt L ltac:(lia) Hwf HL) as Hn.
   apply decide_expired; auto; cbn [set_flags e_expires]; lia.
-Qed.
-
-Lemma served_date_rt rp now rt : served_date rp now rt = served_date rp now 0 - rt.
-Proof. unfold served_date; cbv zeta. lia. Qed.
-
-(* a non-negative lifetime never produces a negative stored expiry *)
-Lemma nonneg_lifetime_representable rp recv rt L :
-  0 <= recv -> 0 <= rt <= served_date rp recv 0 ->
-  explicit_lifetime rp recv = Some L -> 0 <= L ->
-  (unparsable_expires rp = true -> rp_date rp <= recv) ->
-  0 <= e_expires (new_entry rp recv rt).
-Proof.
-  intros Hr Hrt HL HL0 Hfut.
-  pose proof (served_date_rt rp recv rt) as Hsd.
-  unfold new_entry; cbn [e_expires].
-  unfold explicit_lifetime in HL. unfold unparsable_expires in Hfut.
-  unfold entry_expires, hdr_expiration_time, reply_max_age.
-  destruct (rp_has_cc rp); destruct (rp_s_maxage rp); destruct (rp_max_age rp); cbn [andb orb negb is_some] in *;
-    try (injection HL as <-);
-    repeat break_if; try lia.
-  all: try (injection HL as <-; try lia).
-  all: try discriminate.
 Qed.
 
 (* ---------- histories ---------- *)
@@ -318,24 +301,21 @@ Qed.
 Lemma history_explicit_lifetime cfg lmf steps pre s o e L :
   honours_expiry cfg -> ordered 0 steps ->
   In (pre, s, o) (run_trace cfg lmf None steps) -> pre = Some e ->
+  cc_values_nonneg (e_reply e) ->
   explicit_lifetime (e_reply e) (e_recv e) = Some L ->
-  0 <= e_expires e ->
-  recent_date_if_unparsable (e_reply e) (e_recv e) ->
   req_no_max_stale (s_req s) -> 0 <= req_min_fresh (s_req s) ->
   s_now s + req_min_fresh (s_req s) < 2147483648 ->
   e_recv e + L <= s_now s ->
   forall a, o <> OHit a.
 Proof.
-  intros Hcfg Hord Hin Hpre HL Hrep Hbad Hms Hmf Hrng Hnow a Ho.
+  intros Hcfg Hord Hin Hpre Hwf HL Hms Hmf Hrng Hnow a Ho.
   destruct (trace_inv cfg lmf steps 0 None ltac:(lia) Hord ltac:(intros x Hx; discriminate) pre s o Hin)
     as (Hst & Hn & Hobs).
   subst pre. destruct (Hst e eq_refl) as [[Hr0 (rt & Hrt & Hform)] Hrecv].
   rewrite Hobs in Ho. apply hit_means_decide_hit in Ho.
   rewrite Hform in Ho. revert Ho.
   apply explicit_lifetime_respected with (L := L); auto; try lia.
-  rewrite Hform in Hrep. exact Hrep.
 Qed.
-
 
 (* ================= claim 2: Cache-Control max-age=0 / no-cache requests reach the origin ================= *)
 Definition asks_reload (q : request) : Prop :=
@@ -377,16 +357,15 @@ Qed.
 Lemma must_revalidate_stale_contacts cfg lmf rp recv rt q now L :
   c_offline cfg = false ->
   marked_must_revalidate rp ->
-  0 <= recv <= now -> 0 <= rt ->
+  0 <= recv <= now -> 0 <= rt -> cc_values_nonneg rp ->
   explicit_lifetime rp recv = Some L ->
-  0 <= e_expires (new_entry rp recv rt) ->
-  recent_date_if_unparsable rp recv ->
   0 <= req_min_fresh q -> now + req_min_fresh q < 2147483648 ->
   recv + L <= now ->
   decide cfg lmf (Some (set_flags (new_entry rp recv rt))) q now <> AHit.
 Proof.
-  intros Hoff Hm Hr Hrt HL Hrep Hbad Hmf Hrng Hnow.
-  pose proof (entry_expires_bound rp recv rt L ltac:(lia) Hrt HL Hbad) as Hb.
+  intros Hoff Hm Hr Hrt Hwf HL Hmf Hrng Hnow.
+  pose proof (entry_expires_bound rp recv rt L ltac:(lia) Hrt HL) as Hb.
+  pose proof (entry_expires_nonneg rp recv rt L ltac:(lia) Hwf HL) as Hn.
   apply stale_decision; [exact Hoff|].
   apply refresh_check_must_revalidate; auto.
   - apply (set_flags_must_revalidate (new_entry rp recv rt)). exact Hm.
@@ -430,15 +409,14 @@ Definition t_recv : Z := 1790000000.
 Definition plain_q : request := mkReq false false false None None None false false (-1) false false.
 Definition q_with (ma ms : option Z) : request := mkReq false true false ma ms None false false (-1) false false.
 
-(* W1: Date 5 s ahead of the proxy's clock, Expires: Thu, 01 Jan 1970 00:00:01 GMT, Last-Modified 1000000 s ago:
-   timestampsSet computes expires = served_date + (1 - Date) = -4, which refreshStaleness reads as "no explicit
-   expiry" (expires > -1 fails) and the last-modified factor then keeps the response fresh for 200000 s *)
+(* W1 (former finding, repaired in /repo 5b272cc): Date 5 s ahead of the proxy's clock, Expires: Thu, 01 Jan 1970
+   00:00:01 GMT, Last-Modified 1000000 s ago: served_date + (1 - Date) = -4 is now clamped to 0 *)
 Definition w1_reply : reply :=
   mkReply (t_recv + 5) false None None true 1 (-1) (t_recv - 1000000)
           false false false false false false false false false 4.
 
-(* W2: unparsable Expires ("0") with a Date more than 24 h old and must-revalidate: hdrExpirationTime answers
-   squid_curtime, timestampsSet moves served_date to squid_curtime and adds (expires - Date) = 86401 s of lifetime *)
+(* W2 (former finding, repaired in /repo ba6a5eb): unparsable Expires ("0") with a Date more than 24 h old and
+   must-revalidate: the reply now expires at its own Date, i.e. with a zero lifetime *)
 Definition w2_reply : reply :=
   mkReply (t_recv - 86401) true None None true (-1) (-1) (-1)
           true false false false false false false false false 4.
@@ -458,27 +436,14 @@ Definition ok_reply_mr : reply :=
 
 Definition stored (rp : reply) : option entry := Some (set_flags (new_entry rp t_recv 0)).
 
-Lemma explicit_lifetime_refuted :
-  exists rp recv q now L,
-    explicit_lifetime rp recv = Some L /\ 0 <= recv <= now /\ now < 2147483648 /\ recv + L <= now /\
-    plain_request q /\ req_no_max_stale q /\ req_min_fresh q = 0 /\ unparsable_expires rp = false /\
-    e_expires (new_entry rp recv 0) = -4 /\
-    decide default_config lm_default (Some (set_flags (new_entry rp recv 0))) q now = AHit.
-Proof.
-  exists w1_reply, t_recv, plain_q, (t_recv + 3600), (1 - (t_recv + 5)).
-  repeat split; try (vm_compute; congruence); try (right; reflexivity); try (left; reflexivity); try (intro Hx; discriminate Hx).
-Qed.
-
-Lemma unparsable_expires_refuted :
-  exists rp recv q now L,
-    explicit_lifetime rp recv = Some L /\ L = 0 /\ 0 <= recv <= now /\ now < 2147483648 /\ recv + L <= now /\
-    plain_request q /\ req_no_max_stale q /\ req_min_fresh q = 0 /\
-    unparsable_expires rp = true /\ marked_must_revalidate rp /\ 0 <= e_expires (new_entry rp recv 0) /\
-    decide default_config lm_default (Some (set_flags (new_entry rp recv 0))) q now = AHit.
-Proof.
-  exists w2_reply, t_recv, plain_q, (t_recv + 66602), 0.
-  repeat split; try (vm_compute; congruence); try (right; reflexivity); try (left; reflexivity); try (intro Hx; discriminate Hx).
-Qed.
+Lemma ex_former_witnesses_revalidated :
+  e_expires (new_entry w1_reply t_recv 0) = 0 /\
+  decide default_config lm_default (stored w1_reply) plain_q t_recv = ARevalidate /\
+  decide default_config lm_default (stored w1_reply) plain_q (t_recv + 3600) = ARevalidate /\
+  e_expires (new_entry w2_reply t_recv 0) = t_recv /\
+  decide default_config lm_default (stored w2_reply) plain_q t_recv = ARevalidate /\
+  decide default_config lm_default (stored w2_reply) plain_q (t_recv + 66602) = ARevalidate.
+Proof. repeat split; vm_compute; reflexivity. Qed.
 
 Lemma reload_refuted :
   exists rp recv q now,
@@ -490,14 +455,17 @@ Proof.
 Qed.
 
 (* the hypotheses of the positive theorems are satisfiable, and the exceptions are real *)
+Lemma ok_reply_wf : cc_values_nonneg ok_reply.
+Proof. split; intros v Hv; vm_compute in Hv; try discriminate; injection Hv as <-; lia. Qed.
+
 Lemma ex_lifetime_hyps :
-  honours_expiry default_config /\ explicit_lifetime ok_reply t_recv = Some 100 /\
-  0 <= e_expires (new_entry ok_reply t_recv 0) /\ recent_date_if_unparsable ok_reply t_recv /\
+  honours_expiry default_config /\ explicit_lifetime ok_reply t_recv = Some 100 /\ cc_values_nonneg ok_reply /\
   req_no_max_stale plain_q /\ req_min_fresh plain_q = 0 /\
   decide default_config lm_default (stored ok_reply) plain_q (t_recv + 99) = AHit /\
   decide default_config lm_default (stored ok_reply) plain_q (t_recv + 100) = ARevalidate.
 Proof.
-  repeat split; try (vm_compute; congruence); try (right; reflexivity); try (left; reflexivity); try (intro Hx; discriminate Hx).
+  split; [exact default_honours_expiry|]. split; [reflexivity|]. split; [exact ok_reply_wf|].
+  split; [right; reflexivity|]. repeat split; vm_compute; reflexivity.
 Qed.
 
 Lemma ex_max_stale_exception :
